@@ -19,6 +19,35 @@ CLAIMED = {
         "Trusted: CPython semantics as encoded (T-PY), z3/cvc5 (T-SMT), the engine (T-ENG); Arpeggio's "
         "pos_to_linecol and node positions (T-ARP). The processor is an External callable (universally quantified).",
         "DESIGN.md 5/C33, 2.10", ""),
+    "C30": (
+        "The body of the custom-argument loop of `textx generate` (a statement region of the real click command, "
+        "decorators dropped) is proved against the per-token contract taken from the statement: a token --name "
+        "contributes exactly the key name[2:] with '-' replaced by '_', value True when bare (last token or followed "
+        "by another --token) else the next token stripped of quotes; no other key changes; consumed tokens and model "
+        "files accounted with quantified whole-list postconditions. Holds for every token list.",
+        "str.replace is an uninterpreted function with four ground lemmas for single-character patterns (A-REPLACE), "
+        "str.strip is uninterpreted; click's option parsing and sys.exit are trusted. NOT covered yet: validation of "
+        "declared/mandatory generator arguments and the exit-status paths of check/generate.",
+        "DESIGN.md 5/C30", ""),
+    "C32": (
+        "Per-reference contract of the resolution loop body (a statement region of ReferenceResolver.resolve_one_step) "
+        "proved for every metamodel provider table, every cross-ref and every provider behaviour: exactly one provider "
+        "is applied to (obj, attr, crossref); it is the grammar RREL provider if present, else the value under the "
+        "first present key of Rule.attr, *.attr, Rule.*, *.*, else the default PlainName. register_scope_providers "
+        "(loop invariant over the table) and RuleCrossRef.__init__ both build RREL providers with the same constructor.",
+        "Providers are External callables (assumed not to write the resolver, the cross-ref, the meta attribute or the "
+        "provider table). create_rrel_scope_provider is an assumed pure function of its argument.",
+        "DESIGN.md 5/C32, Appendix B", ""),
+    "C34": (
+        "Proved: (1) per resolved reference exactly one RefRulePosition with start = reference position, end = end of "
+        "the reference text (ObjCrossRef.position_end), definition span/file of the target (loop-body region unit); "
+        "(2) resolve_one_step leaves the list sorted by start (list.sort contract); (3) the position map gets an entry "
+        "for each object span, the innermost object wins a shared span (insertion region unit); (4) the final ordering "
+        "statement lists every span before all different spans containing it (sorted()/OrderedDict contracts, "
+        "quantified over all dicts of int-pair keys).",
+        "That ObjCrossRef.position_end is the parse node's end is a CALL-site fact of process_node not yet under "
+        "contract (assumed). list.sort / sorted are modelled as 'permutation ordered by the inlined key'.",
+        "DESIGN.md 5/C34", ""),
 }
 
 NA = {
